@@ -129,6 +129,8 @@ pub(crate) struct Driver {
     pool: AsyncifyPool,
     completed_tx: Sender<Entry>,
     completed_rx: Receiver<Entry>,
+    #[cfg(compio_verif)]
+    verif_id: u64,
 }
 
 impl Driver {
@@ -152,6 +154,12 @@ impl Driver {
             pool: builder.create_or_get_thread_pool(),
             completed_tx,
             completed_rx,
+            #[cfg(compio_verif)]
+            verif_id: {
+                let id = crate::verif::next_driver_id();
+                crate::verif::emit(crate::verif::Kind::DriverNew, id, 1, 0);
+                id
+            },
         })
     }
 
@@ -197,6 +205,13 @@ impl Driver {
         } = self;
         let need_add = !registry.contains_key(&arg.fd);
         let queue = registry.entry(arg.fd).or_default();
+        #[cfg(compio_verif)]
+        crate::verif::emit(
+            crate::verif::Kind::Submit,
+            key.as_raw() as u64,
+            1,
+            ((self.verif_id << 32) | (arg.fd as u32 as u64)) as i64,
+        );
         let token = queue.push_back_interest(key, arg.interest);
         let event = queue.event();
         let res = if need_add {
@@ -373,14 +388,28 @@ impl Driver {
         let waker = self.waker();
         let completed = self.completed_tx.clone();
         // SAFETY: we're submitting into the driver, so it's safe to freeze here.
+        #[cfg(compio_verif)]
+        let (verif_addr, verif_id) = (key.as_raw() as u64, self.verif_id);
+        #[cfg(compio_verif)]
+        crate::verif::emit(crate::verif::Kind::Submit, verif_addr, 2, (verif_id << 32) as i64);
         let mut key = unsafe { key.freeze() };
 
         let mut closure = move || {
+            #[cfg(compio_verif)]
+            {
+                crate::verif::emit(crate::verif::Kind::BlockingBegin, verif_addr, verif_id, 0);
+                crate::verif::pause(crate::verif::Point::BlockingBeforeRun);
+            }
             let operate = || match key.as_mut().carrier.operate() {
                 Poll::Pending => unreachable!("this operation is not non-blocking"),
                 Poll::Ready(res) => res,
             };
             let res = catch_unwind_io(AssertUnwindSafe(operate));
+            #[cfg(compio_verif)]
+            {
+                crate::verif::emit(crate::verif::Kind::BlockingEnd, verif_addr, verif_id, 0);
+                crate::verif::pause(crate::verif::Point::BlockingAfterRun);
+            }
             let _ = completed.send(Entry::new(key.into_inner(), res));
             waker.wake();
         };
@@ -420,6 +449,13 @@ impl Driver {
                     extra.reset();
                     // `FdQueue` may have been removed, need to submit again
                     for t in extra.track.iter() {
+                        #[cfg(compio_verif)]
+                        crate::verif::emit(
+                            crate::verif::Kind::Requeue,
+                            key.as_raw() as u64,
+                            t.arg.fd as u64,
+                            0,
+                        );
                         let res = unsafe { self.submit_front(key.clone(), t.arg) };
                         if let Err(e) = res {
                             // On error, remove all previously submitted fds.
@@ -453,7 +489,11 @@ impl Driver {
         // We need to poll the poller first to make sure it handles the internal notify
         // event (if any).
         self.events.clear();
+        #[cfg(compio_verif)]
+        crate::verif::pause(crate::verif::Point::PollBeforeWait);
         self.notify.poll.wait(&mut self.events, timeout)?;
+        #[cfg(compio_verif)]
+        crate::verif::pause(crate::verif::Point::PollAfterWait);
         self.notify.set_awake();
         if self.events.is_empty() {
             if self.poll_completed() {
@@ -534,6 +574,8 @@ impl Drop for Driver {
                 self.poller().delete(fd).ok();
             }
         }
+        #[cfg(compio_verif)]
+        crate::verif::emit(crate::verif::Kind::DriverDropEnd, self.verif_id, 1, 0);
     }
 }
 
@@ -572,8 +614,19 @@ impl Wake for Notify {
     }
 
     fn wake_by_ref(self: &Arc<Self>) {
+        #[cfg(compio_verif)]
+        let verif_addr = Arc::as_ptr(self) as usize as u64;
         if !self.awake.wake() {
+            #[cfg(compio_verif)]
+            {
+                crate::verif::emit(crate::verif::Kind::Wake, verif_addr, 0, 1);
+                crate::verif::pause(crate::verif::Point::WakeBeforeSyscall);
+            }
             self.poll.notify().ok();
+            #[cfg(compio_verif)]
+            return;
         }
+        #[cfg(compio_verif)]
+        crate::verif::emit(crate::verif::Kind::Wake, verif_addr, 1, 1);
     }
 }
